@@ -19,12 +19,13 @@ struct BareDecoder : public PointCloudDecoder { bool CreateAttributesDecoder(int
 #ifndef NB
 #define NB 10
 #endif
+#ifndef NENT
 #define NENT 2
+#endif
 extern "C" void h_seq_int_values(void) {
   char buf[NB]; verif_fill(buf, NB);
   uint32_t n = nondet_u32(); verif_assume(n <= NB);
-  const uint8_t maj = nondet_u8(), mnr = nondet_u8();
-  verif_assume((maj == 1 && mnr <= 5) || (maj == 2 && mnr <= 3));
+  const uint8_t maj = 2, mnr = 2;      // DecodeIntegerValues does not look at the version
   DecoderBuffer db; db.Init(buf, n, DRACO_BITSTREAM_VERSION(maj, mnr));
   BareDecoder pcd; pcd.version_major_ = maj; pcd.version_minor_ = mnr; pcd.buffer_ = &db;
   // the final attribute: any integer type, 1..2 components, storage for exactly NENT values
@@ -42,7 +43,7 @@ extern "C" void h_seq_int_values(void) {
   att.attribute_buffer_.reset(&adb); att.identity_mapping_ = true; att.num_unique_entries_ = NENT; att.unique_id_ = 3;
   SequentialIntegerAttributeDecoder dec;
   dec.decoder_ = &pcd; dec.attribute_ = &att; dec.attribute_id_ = 0;
-  PointIndex ids_s[NENT] = {PointIndex(0), PointIndex(1)}; std::vector<PointIndex> ids; verif_adopt(ids, ids_s, NENT, NENT);
+  PointIndex ids_s[NENT]; for (int i = 0; i < NENT; ++i) ids_s[i] = PointIndex(i); std::vector<PointIndex> ids; verif_adopt(ids, ids_s, NENT, NENT);
   const bool ok = dec.DecodeIntegerValues(ids, &db);
   verif_observe(ok);
   verif_assert(db.decoded_size() <= (int64_t)n, "never reads past the input");
